@@ -23,6 +23,7 @@ import (
 	"net/netip"
 	"os"
 	"regexp"
+	"runtime"
 	"sort"
 	"strconv"
 	"strings"
@@ -412,6 +413,8 @@ type Reply struct {
 	XID    []byte
 	CHAddr []byte
 	BCast  bool
+	DstMAC []byte // Ethernet / IP destination of the frame (the model sees only BCast; the oracle checks the unicast case)
+	DstIP  uint32
 	Opts   map[byte][]byte
 	Order  []byte // option codes in wire order
 	Bad    string // malformed reply description
@@ -434,6 +437,7 @@ func DecodeReply(fr []byte) (*Reply, bool) {
 	r := &Reply{YIAddr: binary.BigEndian.Uint32(d[16:]), CIAddr: binary.BigEndian.Uint32(d[12:]), XID: append([]byte{}, d[4:8]...),
 		CHAddr: append([]byte{}, d[28:34]...), Opts: map[byte][]byte{}}
 	r.BCast = bytes.Equal(fr[0:6], []byte{0xff, 0xff, 0xff, 0xff, 0xff, 0xff}) && binary.BigEndian.Uint32(fr[14+16:]) == 0xffffffff
+	r.DstMAC, r.DstIP = append([]byte{}, fr[0:6]...), binary.BigEndian.Uint32(fr[14+16:])
 	if !bytes.Equal(d[236:240], []byte{99, 130, 83, 99}) {
 		r.Bad = "bad cookie"
 	}
@@ -579,6 +583,11 @@ type Step struct {
 	Tracked  []byte // MAC the session tracked for the reply address when the message was processed (nil: none)
 	Err      string // panic / dump problem
 	Skipped  bool   // frame not dispatched (Parse refused it)
+	Refused  string // a message frame Parse did not hand to the DHCP handler (why)
+	Others   [][]byte  // frames the server wrote that are not BOOTREPLYs from port 67 (client messages it sends on the side)
+	T0, T1   time.Time // wall clock before / after the call
+	Expiry   time.Time // DHCPExpiry of the client's lease after the step (zero: no lease)
+	LeaseDur time.Duration
 	CfgDump  string // configuration dump the step ran under
 	hostsPre map[uint32][]byte
 }
@@ -593,6 +602,7 @@ func (w *World) Apply(o *Op) *Step {
 		frame, err = w.S.Parse(BuildFrame(w.rx, o))
 		if err != nil || frame.PayloadID != packet.PayloadDHCP4 {
 			st.Skipped = true
+			st.Refused = fmt.Sprintf("Parse: err=%v payload=%d", err, frame.PayloadID)
 			return st
 		}
 	}
@@ -624,6 +634,8 @@ func (w *World) Apply(o *Op) *Step {
 		}
 	}
 	w.Conn.Take()
+	goroutines := runtime.NumGoroutine()
+	st.T0 = time.Now()
 	res := core.Safely(func() string {
 		switch o.Kind {
 		case "discover", "request", "decline", "release":
@@ -652,13 +664,36 @@ func (w *World) Apply(o *Op) *Step {
 	if res != "ok" {
 		st.Err = "panic in " + o.Kind
 	}
+	st.T1 = time.Now()
 	// the receive loop reuses its buffer: whatever the server kept must not point into it
 	for i := range w.rx {
 		w.rx[i] = 0xee
 	}
+	// senders the handler started on the side (forged DECLINE / RELEASE): wait until they are gone so that their
+	// frames belong to this step
+	if isMsg(o.Kind) {
+		for deadline := time.Now().Add(10 * time.Second); runtime.NumGoroutine() > goroutines && time.Now().Before(deadline); {
+			runtime.Gosched()
+			time.Sleep(10 * time.Microsecond)
+		}
+	}
 	for _, fr := range w.Conn.Take() {
 		if r, ok := DecodeReply(fr); ok {
 			st.Replies = append(st.Replies, r)
+		} else {
+			st.Others = append(st.Others, fr)
+		}
+	}
+	if isMsg(o.Kind) {
+		for _, l := range w.H.VerifDump().Leases {
+			if bytes.Equal(l.CID, o.clientID()) {
+				st.Expiry = l.Expiry
+				if l.Subnet == 2 {
+					st.LeaseDur = w.H.VerifDump().Net2.Cfg.Duration
+				} else {
+					st.LeaseDur = w.H.VerifDump().Net1.Cfg.Duration
+				}
+			}
 		}
 	}
 	var bad2 string
@@ -753,6 +788,79 @@ func bcastOf(p netip.Prefix) uint32 {
 	return u32(p.Masked().Addr()) | (uint32(0xffffffff) >> uint(p.Bits()))
 }
 
+// sideFrames judges the frames the server wrote besides its reply (audit: they used to be dropped unseen).  The only
+// client-side messages the DHCP server sends are (a) the DISCOVER storm against the home router's pool (chaddr
+// ff:ee:dd:cc:bb:xx, at most once per 20 s of wall time) and (b) one forged DECLINE per DISCOVER / REQUEST in the attacking
+// modes, sent to the home router in the name of THIS client: chaddr, xid and client identifier of the triggering message,
+// requested address = the address the message names, server identifier = the home router.
+func (l *Ledger) sideFrames(st *Step, add func(prop, known, format string, a ...any)) {
+	o := st.Op
+	declines := 0
+	for _, fr := range st.Others {
+		Stats["side-frame"]++
+		bad := func(format string, a ...any) {
+			add("C12", "", "frame written besides the reply to %s: "+format+" [%s]", append(append([]any{o.Kind}, a...), core.Hex(fr[:min(len(fr), 60)]))...)
+		}
+		if len(fr) < 14+20+8+240 || fr[12] != 0x08 || fr[13] != 0x00 || fr[14] != 0x45 || fr[23] != 17 ||
+			binary.BigEndian.Uint16(fr[34:]) != 68 || binary.BigEndian.Uint16(fr[36:]) != 67 || fr[42] != 1 {
+			bad("not a BOOTREQUEST from port 68 to port 67")
+			continue
+		}
+		d := fr[42:]
+		opts := map[byte][]byte{}
+		for p := d[240:]; len(p) >= 2 && p[0] != 255; {
+			if p[0] == 0 {
+				p = p[1:]
+				continue
+			}
+			if len(p) < 2+int(p[1]) {
+				break
+			}
+			opts[p[0]] = p[2 : 2+int(p[1])]
+			p = p[2+int(p[1]):]
+		}
+		typ := byte(0)
+		if t := opts[53]; len(t) == 1 {
+			typ = t[0]
+		}
+		chaddr, xid := d[28:34], d[4:8]
+		switch {
+		case typ == 1 && bytes.Equal(chaddr[:5], []byte{0xff, 0xee, 0xdd, 0xcc, 0xbb}):
+			Stats["side-frame:storm"]++ // (a)
+			if o.Kind != "discover" {
+				bad("DISCOVER storm although the message is no DISCOVER")
+			}
+		case typ == 4:
+			Stats["side-frame:decline"]++
+			declines++
+			attacking := l.mode == 2 || (l.mode == 3 && st.Captured)
+			named := o.CIAddr
+			if len(o.Req) == 4 && binary.BigEndian.Uint32(o.Req) != 0 {
+				named = binary.BigEndian.Uint32(o.Req)
+			}
+			switch {
+			case !attacking:
+				bad("forged DECLINE in mode %d for a client with captured=%v", l.mode, st.Captured)
+			case o.Kind != "discover" && o.Kind != "request":
+				bad("forged DECLINE")
+			case !bytes.Equal(chaddr, o.CHAddr) || !bytes.Equal(xid, o.XID):
+				bad("forged DECLINE for chaddr %x xid %x, the message has chaddr %x xid %x", chaddr, xid, o.CHAddr, o.XID)
+			case !bytes.Equal(opts[61], o.clientID()):
+				bad("forged DECLINE with client identifier %x, the client is %x", opts[61], o.clientID())
+			case len(opts[50]) != 4 || binary.BigEndian.Uint32(opts[50]) != named:
+				bad("forged DECLINE of %x, the message names %s", opts[50], addr(named))
+			case !bytes.Equal(opts[54], l.cfg.Router.AsSlice()) || !bytes.Equal(fr[0:6], sess.RouterMAC) || !bytes.Equal(fr[6:12], sess.HostMAC):
+				bad("forged DECLINE not addressed to the home router from the host NIC (server id %x)", opts[54])
+			}
+		default:
+			bad("unexpected client message type %d chaddr %x", typ, chaddr)
+		}
+	}
+	if declines > 1 {
+		add("C12", "", "%d forged DECLINEs for one %s", declines, o.Kind)
+	}
+}
+
 // Observe checks one step against C11 and C12 and updates the ledger.
 func (l *Ledger) Observe(st *Step) (out []Finding) {
 	o := st.Op
@@ -802,10 +910,18 @@ func (l *Ledger) Observe(st *Step) (out []Finding) {
 		}
 		return
 	}
+	if isMsg(o.Kind) && st.Skipped {
+		// every generated message is a well-formed Ethernet/IPv4/UDP/DHCP frame: the session must hand it to the handler
+		Stats["msg-not-dispatched"]++
+		add("C11", "", "%s frame not dispatched to the DHCP handler (%s)", o.Kind, st.Refused)
+		add("C12", "", "%s frame not dispatched to the DHCP handler (%s)", o.Kind, st.Refused)
+		return
+	}
 	if !isMsg(o.Kind) || st.Skipped {
 		return
 	}
 	Stats["op:"+o.Kind]++
+	l.sideFrames(st, add)
 	if len(st.Replies) == 0 {
 		Stats["reply:none"]++
 	}
@@ -834,6 +950,10 @@ func (l *Ledger) Observe(st *Step) (out []Finding) {
 		}
 		if !bytes.Equal(r.XID, o.XID) || !bytes.Equal(r.CHAddr, o.CHAddr) {
 			add("C12", "", "%s does not echo xid/chaddr: xid=%x chaddr=%x", r.typeName(), r.XID, r.CHAddr)
+		}
+		// destination: broadcast, or exactly the sender of the request (the model sees one bit)
+		if !r.BCast && (!bytes.Equal(r.DstMAC, o.CHAddr) || r.DstIP != o.Src) {
+			add("C12", "", "%s sent to %x / %s, neither broadcast nor the sender %x / %s", r.typeName(), r.DstMAC, addr(r.DstIP), o.CHAddr, addr(o.Src))
 		}
 		if r.Type != 2 && r.Type != 5 {
 			continue
@@ -885,6 +1005,14 @@ func (l *Ledger) Observe(st *Step) (out []Finding) {
 		}
 		if r.Type == 5 {
 			ack = r
+			// the lease the server keeps runs for the announced time from the moment of the ACK (instants, not the
+			// canonical clock that floors to the hour)
+			if !st.T0.IsZero() && (st.Expiry.Before(st.T0.Add(st.LeaseDur)) || st.Expiry.After(st.T1.Add(st.LeaseDur))) {
+				add("C12", "", "ACK at %s..%s with lease time %s, but the server's lease runs until %s", st.T0.Format("15:04:05.000000"), st.T1.Format("15:04:05.000000"), st.LeaseDur, st.Expiry.Format("15:04:05.000000"))
+			}
+			if v := r.Opts[51]; len(v) == 4 && time.Duration(binary.BigEndian.Uint32(v))*time.Second != st.LeaseDur {
+				add("C12", "", "ACK announces lease time %d s, the subnet's is %s", binary.BigEndian.Uint32(v), st.LeaseDur)
+			}
 			confirmsOffer := false
 			if of, ok := l.offered[cid]; ok && of.ip == ip && of.xid == string(o.XID) {
 				confirmsOffer = true
@@ -915,8 +1043,27 @@ func (l *Ledger) Observe(st *Step) (out []Finding) {
 			}
 		}
 	}
-	// ---- ledger update: any message of the client ends its previous binding unless it is re-acknowledged
-	if ip, ok := l.leaseOf[cid]; ok {
+	// ---- ledger update.  An acknowledgement stays in force until the client gives the address up or is told to:
+	// DISCOVER (the client is back in INIT), RELEASE, a DECLINE addressed to us, a REQUEST that selects another server
+	// (it takes that server's offer), a REQUEST answered with NAK, or the end of the lease time (tick).  A REQUEST or DECLINE
+	// the server ignores does NOT end it (audit F3: it used to end on any message of the holder).
+	ends := false
+	switch o.Kind {
+	case "discover", "release":
+		ends = true
+	case "decline":
+		ends = bytes.Equal(o.Srv, l.cfg.Host.AsSlice())
+	case "request":
+		if len(o.Srv) == 4 && !bytes.Equal(o.Srv, []byte{0, 0, 0, 0}) && !bytes.Equal(o.Srv, l.cfg.Host.AsSlice()) {
+			ends = true
+		}
+		for _, r := range st.Replies {
+			if r.Type == 6 || r.Type == 5 {
+				ends = true // NAK; an ACK replaces the binding below
+			}
+		}
+	}
+	if ip, ok := l.leaseOf[cid]; ok && ends {
 		delete(l.acked, ip)
 		delete(l.leaseOf, cid)
 	}
@@ -1169,7 +1316,97 @@ func mkCase(c *core.Ctx, cfgIdx, mode int, ops []*Op, run *Run, onlyNew bool, cl
 		}}
 }
 
+// ---------------------------------------------------------------------------------------------
+// Config.New: the two subnets the constructor derives from the NIC information and the configuration
+//
+//	dhcp.new <mode>,<host>,<router>,<homeLan>,<homeBits>,<nfAddr>,<nfBits>,<dns|~> @ <cfgdump | err>
+//
+// The model (Model.Dhcp4Srv.mkCfg / NewCfg.accepted) must produce the same subnets, or refuse the same configurations.
+// The oracle states C12's concrete values independently: home subnet = home LAN, REAL router, configured DNS (router
+// when none); netfilter subnet = netfilter prefix, OUR netfilter address as gateway, 1.1.1.3; we are the server of both.
+
+func evalNew(c *core.Ctx, spec string) *core.Case {
+	f := strings.Split(spec, ",")
+	if len(f) != 8 {
+		return nil
+	}
+	num := func(s string) uint32 { v, _ := strconv.ParseUint(s, 10, 32); return uint32(v) }
+	mode := int(num(f[0]))
+	hb, nb := int(num(f[4])), int(num(f[6]))
+	if mode < 1 || mode > 3 || hb > 32 || nb > 32 {
+		return nil
+	}
+	initOnce()
+	home := netip.PrefixFrom(addr(num(f[3])), hb)
+	nf := netip.PrefixFrom(addr(num(f[5])), nb)
+	nic := &packet.NICInfo{
+		HostAddr4:   packet.Addr{MAC: sess.HostMAC, IP: addr(num(f[1]))},
+		RouterAddr4: packet.Addr{MAC: sess.RouterMAC, IP: addr(num(f[2]))},
+		HomeLAN4:    home, HostLLA: sess.HostLLA, RouterLLA: sess.RouterLLA,
+	}
+	s, _ := sess.New(nic) // timers already stopped; nothing runs in it
+	cfg := dhcp.Config{Mode: dhcp.Mode(mode), NetfilterIP: nf}
+	dnsWant := addr(num(f[2]))
+	if f[7] != "~" {
+		cfg.DNSServer = addr(num(f[7]))
+		dnsWant = cfg.DNSServer
+	}
+	dump, what := "err", ""
+	res := core.Safely(func() string {
+		h, err := cfg.New(s)
+		if err != nil {
+			return "ok"
+		}
+		st := h.VerifDump()
+		dump = fmt.Sprintf("%d,%d,%d,%s,%s", st.Mode, num(f[1]), num(f[2]), subnetStr(st.Net1), subnetStr(st.Net2))
+		n1, n2 := st.Net1.Cfg, st.Net2.Cfg
+		switch {
+		case n1.LAN != home.Masked() || n1.DefaultGW != nic.RouterAddr4.IP || n1.DNSServer != dnsWant || n1.DHCPServer != nic.HostAddr4.IP:
+			what = fmt.Sprintf("home subnet after New: %+v, want the home LAN %s with the real router %s, DNS %s, server %s", n1, home, nic.RouterAddr4.IP, dnsWant, nic.HostAddr4.IP)
+		case n2.LAN != nf.Masked() || n2.DefaultGW != nf.Addr() || n2.DNSServer != netip.MustParseAddr("1.1.1.3") || n2.DHCPServer != nic.HostAddr4.IP:
+			what = fmt.Sprintf("netfilter subnet after New: %+v, want %s with our address %s as gateway, the family DNS 1.1.1.3, server %s", n2, nf.Masked(), nf.Addr(), nic.HostAddr4.IP)
+		case !home.Masked().Contains(nf.Masked().Addr()) || nf.Bits() < home.Bits():
+			what = fmt.Sprintf("New accepts the netfilter prefix %s that is not inside the home LAN %s", nf, home)
+		case n1.Duration != 4*time.Hour || n2.Duration != 4*time.Hour:
+			what = "lease time after New is not four hours"
+		}
+		return "ok"
+	})
+	if res != "ok" {
+		what = "Config.New panicked"
+	}
+	return &core.Case{Line: "dhcp.new " + spec + " " + dump, Impl: "accept", Class: "new",
+		Oracle: func() (string, string) { return what, "" }}
+}
+
+func genNew(c *core.Ctx) {
+	emit := func(mode int, host, router netip.Addr, home, nf netip.Prefix, dns string) {
+		spec := fmt.Sprintf("%d,%d,%d,%d,%d,%d,%d,%s", mode, u32(host), u32(router), u32(home.Addr()), home.Bits(), u32(nf.Addr()), nf.Bits(), dns)
+		if cs := evalNew(c, spec); cs != nil {
+			c.Add(*cs)
+		}
+	}
+	for i := range Cfgs {
+		k := &Cfgs[i]
+		for mode := 1; mode <= 3; mode++ {
+			emit(mode, k.Host, k.Router, k.Home, k.Netfilter, strconv.FormatUint(uint64(u32(k.DNS)), 10))
+		}
+		emit(2, k.Host, k.Router, k.Home, k.Netfilter, "~") // no DNS server configured: the router
+		// netfilter prefixes New must refuse: address outside the home LAN; prefix shorter than the home prefix
+		emit(1, k.Host, k.Router, k.Home, netip.PrefixFrom(netip.MustParseAddr("172.31.9.1"), 29), "~")
+		if k.Home.Bits() > 8 {
+			emit(1, k.Host, k.Router, k.Home, netip.PrefixFrom(k.Netfilter.Addr(), k.Home.Bits()-1), "~")
+		}
+		// unmasked home prefix, netfilter prefix as long as the home prefix, /30
+		emit(3, k.Host, k.Router, netip.PrefixFrom(k.Host, k.Home.Bits()), netip.PrefixFrom(k.Host, k.Home.Bits()), "~")
+		emit(1, k.Host, k.Router, k.Home, netip.PrefixFrom(k.Host, 30), "~")
+	}
+}
+
 func Eval(c *core.Ctx, line string) *core.Case {
+	if f := strings.Fields(line); len(f) >= 2 && f[0] == "dhcp.new" {
+		return evalNew(c, f[1])
+	}
 	cfgIdx, mode, ops, ok := parseHist(line)
 	if !ok {
 		return nil
@@ -1775,6 +2012,7 @@ func Gen(c *core.Ctx) {
 		}
 	}
 	depth := c.Scale(4, 6)
+	genNew(c)
 	scenarios(c)
 	for cfgIdx := 0; cfgIdx < NumBase; cfgIdx++ {
 		for mode := 1; mode <= 3; mode++ {
